@@ -149,6 +149,19 @@ Theorem C15_f5_scenario_leaves : exists s, run (init 0) f5_scenario = Some s /\
 Proof. exact f5_scenario_leaves. Qed.
 Print Assumptions C15_f5_scenario_leaves.
 
+(* ---- the leader's metadata reads inside the JoinGroup step (assignTopicPartitions): one read for
+   all topics; only when it answers UnknownTopicOrPartition and there are >= 2 topics, at most one
+   more read per topic; the step fails with class e only if some read answered an error e other
+   than UnknownTopicOrPartition.  (The generation theorems do not depend on the number of reads:
+   the step is one LJoin label whose leadership outcome is [fst (leader_assign ...)]; the
+   differential run compares the number of reads with the real code.) ---- *)
+Theorem C15_leader_metadata_reads : forall nt first per ld n, leader_assign nt first per = (ld, n) ->
+  1 <= n <= S nt /\ (1 < n -> first = MUnknown /\ 2 <= nt) /\
+  (forall e, ld = LeaderFail e -> first = MErr e \/ (first = MUnknown /\ In (MErr e) (firstn nt per))) /\
+  ld <> NotLeader.
+Proof. exact leader_assign_spec. Qed.
+Print Assumptions C15_leader_metadata_reads.
+
 (* ---- the boolean monitors run on the implementation's recorded timelines are the ones the
    theorems above are read from ---- *)
 Theorem C15_monitors_hold : forall w ls s, run (init w) ls = Some s ->
